@@ -99,15 +99,12 @@ def check_inmemory(ctx, fb, name):
                 why = "without removals the batch is not set_range(start, leaves)"
             continue
         # validation before the first mutation
-        g_fit = [(a, v) for a, v in cm if a[0] == "b" and a[1][0] == "bin" and a[1][1] == "Gt" and v is False and contains(a[1], ("len", P(3)))]
-        g_start = [(a, v) for a, v in cm if a[0] == "b" and a[1][0] == "bin" and a[1][1] == "Gt" and a[1][2] == P(2) and v is False]
-        g_idx = [(a, v) for a, v in cm if a[0] == "b" and a[1][0] == "call" and a[1][1].endswith("Iterator>::any") and v is False]
-        if not (g_fit and g_start and g_idx):
-            why = "a path mutates the tree without the full validation (start <= capacity, len <= capacity - start, every removal index < capacity) before it"
-            break
-        fit = g_fit[0][0][1]
-        if not (fit[2] == ("len", P(3)) and fit[3] == ("bin", "Sub", cap, P(2))):
-            why = "fit guard is %s, specification leaves.len() > capacity - start" % sh(fit, 100)
+        # decided on the facts that hold before the first mutation, however the guards are spelled or grouped:
+        #   start <= capacity,  len(leaves) <= capacity - start,  every removal index < capacity
+        first = min(i for i, e in enumerate(p.trace) if e[0] == "call" and re.search(r"ZerokitMerkleTree>::(delete|set_range|set)$", e[1]))
+        v_start, v_fit, v_idx = treefx.batch_validated(fb, p, first)
+        if not (v_start and v_fit and v_idx):
+            why = "a path mutates the tree without the full validation before it (holds before the first mutation: start <= capacity %s, start + len <= capacity %s, every removal index < capacity %s)" % (v_start, v_fit, v_idx)
             break
         for c in muts:
             if c[1].endswith("::set_range"):
@@ -246,6 +243,8 @@ def ord_eval(t, env):
     if t[0] == "un" and t[1] == "Not":
         v = ord_eval(t[2], env)
         return None if v is None else (0 if v else 1)
+    if t[0] == "len" and t in env:
+        return env[t]
     if t[0] == "bin":
         a, b = ord_eval(t[2], env), ord_eval(t[3], env)
         if a is None or b is None:
@@ -283,38 +282,39 @@ def removal_filter(fb, it):
         return False, "no filter(closure) over the removal indices found"
     cit = fb.need(caps[1])
     vals = tuple(caps[2])
-    END = (("bin", "Add", P(2), ("len", P(3))), ("bin", "Add", ("len", P(3)), P(2)))
-    names = {}
-    for k, v in enumerate(vals):
-        if v == P(2):
-            names[F(P(1), str(k))] = "start"
-        elif v in END or (isinstance(v, tuple) and v[0] == "bin" and v[1] == "Add" and P(2) in v[2:] and any(isinstance(x, tuple) and x[0] in ("len", "call") for x in v[2:])):
-            names[F(P(1), str(k))] = "end"
-    if sorted(names.values()) != ["end", "start"]:
-        return False, "the filter captures %s, specification (start, start + len(leaves))" % [sh(v, 60) for v in vals]
+    # the closure's terms are rewritten over the caller's values: its element parameter becomes ELEM and every captured variable
+    # (start, end, or a Range built from them, by value or by reference) the captured caller term; they are then evaluated under
+    # an assignment of integers to (i, start, len(leaves))
+    from ..symex import subst
+    m1 = {P(2): ELEM}
+    m2 = {F(P(1), str(k)): v for k, v in enumerate(vals)}
     e2 = Engine(fb, inline=lambda i: False)
     paths = [p for p in e2.run(cit) if p.kind == "return"]
+    tr = lambda t: subst(subst(t, m2), m1) if isinstance(t, tuple) else t
+    # m2 first: F(P(1), k) mentions P(1), not P(2); then the element
     regions = [(5, 10, 20), (10, 10, 20), (15, 10, 20), (19, 10, 20), (20, 10, 20), (25, 10, 20), (5, 10, 10), (10, 10, 10), (15, 10, 10)]
     for i, st, en in regions:
-        env = {P(2): i}
-        for t, nm in names.items():
-            env[t] = st if nm == "start" else en
         got = []
         for p in paths:
             cons = True
             for a, v in p.conds():
                 if a[0] != "b":
                     return False, "the filter branches on %s (not a comparison of i, start, end)" % sh(a, 80)
-                x = ord_eval(a[1], env)
+                a1 = subst(a[1], {P(2): ELEM})
+                a1 = subst(a1, m2)
+                env = {ELEM: i, P(2): st, ("len", P(3)): en - st}
+                x = ord_eval(a1, env)
                 if x is None:
-                    return False, "the filter uses a construct the ordering evaluator does not know: %s" % sh(a[1], 120)
+                    return False, "the filter uses a construct the ordering evaluator does not know: %s" % sh(a1, 120)
                 if bool(x) != bool(v):
                     cons = False
                     break
             if cons:
-                r = ord_eval(e2.value_of(p.store, p.ret), env)
+                rv = subst(subst(e2.value_of(p.store, p.ret), {P(2): ELEM}), m2)
+                env = {ELEM: i, P(2): st, ("len", P(3)): en - st}
+                r = ord_eval(rv, env)
                 if r is None:
-                    return False, "the filter returns %s (not understood)" % sh(e2.value_of(p.store, p.ret), 120)
+                    return False, "the filter returns %s over the captured values %s (not understood; specification i < start || i >= start + len(leaves))" % (sh(rv, 120), [sh(v, 50) for v in vals])
                 got.append(bool(r))
         want = i < st or i >= en
         if got != [want]:
